@@ -175,6 +175,7 @@ class _Party:
         self.peer_sig_algs = None
         self.ee_extensions = [(M.EXT_QUIC_TRANSPORT_PARAMETERS, DEFAULT_QUIC_TP)]
         self.alpn = None
+        self.ee_early_data = False  # put the (empty) early_data extension into EncryptedExtensions
         self.cr_context = b""
         self.last_client_hello = None
         self.last_server_hello = None
@@ -225,6 +226,8 @@ class _Party:
             if instance == 0:
                 if self.alpn is not None:
                     exts.append((M.EXT_ALPN, M.ext_alpn([self.alpn])))
+                if self.ee_early_data:
+                    exts.append((M.EXT_EARLY_DATA, b""))
                 exts += self.ee_extensions
             return M.EncryptedExtensions(exts).encode()
         if kind == "CR":
